@@ -617,6 +617,7 @@ class RDBStorage(BaseStorage, BaseHeartbeat):
     def set_trial_state_values(
         self, trial_id: int, state: TrialState, values: Sequence[float] | None = None
     ) -> bool:
+        n_integrity_errors = 0
         while True:
             try:
                 return self._set_trial_state_values(trial_id, state, values)
@@ -624,43 +625,46 @@ class RDBStorage(BaseStorage, BaseHeartbeat):
                 # Another connection has updated the trial since its state was read.
                 # Start over from the new state.
                 continue
+            except sqlalchemy_exc.IntegrityError:
+                # Another connection has inserted the values of the trial in the meantime, i.e.,
+                # it has finished the trial. Start over once to report that properly.
+                n_integrity_errors += 1
+                if n_integrity_errors > 1:
+                    return False
 
     def _set_trial_state_values(
         self, trial_id: int, state: TrialState, values: Sequence[float] | None
     ) -> bool:
-        try:
-            with _create_scoped_session(self.scoped_session) as session:
-                trial = models.TrialModel.find_or_raise_by_id(trial_id, session, for_update=True)
-                self.check_trial_is_updatable(trial_id, trial.state)
+        with _create_scoped_session(self.scoped_session) as session:
+            trial = models.TrialModel.find_or_raise_by_id(trial_id, session, for_update=True)
+            self.check_trial_is_updatable(trial_id, trial.state)
 
-                if values is not None:
-                    for objective, v in enumerate(values):
-                        self._set_trial_value_without_commit(session, trial_id, objective, v)
+            if values is not None:
+                for objective, v in enumerate(values):
+                    self._set_trial_value_without_commit(session, trial_id, objective, v)
 
-                if state == TrialState.RUNNING and trial.state != TrialState.WAITING:
-                    return False
+            if state == TrialState.RUNNING and trial.state != TrialState.WAITING:
+                return False
 
-                new_fields: dict[str, Any] = {"state": state}
-                if state == TrialState.RUNNING:
-                    new_fields["datetime_start"] = datetime.now()
-                if state.is_finished():
-                    new_fields["datetime_complete"] = datetime.now()
+            new_fields: dict[str, Any] = {"state": state}
+            if state == TrialState.RUNNING:
+                new_fields["datetime_start"] = datetime.now()
+            if state.is_finished():
+                new_fields["datetime_complete"] = datetime.now()
 
-                # The state is updated by compare-and-set. Databases that ignore
-                # ``SELECT ... FOR UPDATE`` (e.g., SQLite3) do not prevent another connection from
-                # updating the trial between the read above and this write.
-                n_updated = (
-                    session.query(models.TrialModel)
-                    .filter(
-                        models.TrialModel.trial_id == trial_id,
-                        models.TrialModel.state == trial.state,
-                    )
-                    .update(new_fields, synchronize_session=False)
+            # The state is updated by compare-and-set. Databases that ignore
+            # ``SELECT ... FOR UPDATE`` (e.g., SQLite3) do not prevent another connection from
+            # updating the trial between the read above and this write.
+            n_updated = (
+                session.query(models.TrialModel)
+                .filter(
+                    models.TrialModel.trial_id == trial_id,
+                    models.TrialModel.state == trial.state,
                 )
-                if n_updated == 0:
-                    raise _TrialStateChangedConcurrently()
-        except sqlalchemy_exc.IntegrityError:
-            return False
+                .update(new_fields, synchronize_session=False)
+            )
+            if n_updated == 0:
+                raise _TrialStateChangedConcurrently()
         return True
 
     def _set_trial_value_without_commit(
